@@ -125,11 +125,11 @@ theorem resolveRandom_isSome (w : World U) (hid : Nat) (us : List U) (sum : U) (
     (w.resolveRandom hid us sum rks top).1.err = none → ∃ j, (w.resolveRandom hid us sum rks top).2 = some j := by
   unfold resolveRandom
   split
-  · intro h; exact absurd h (fail'_err _ _)
+  · intro h; exact absurd h (fail'_errX _ _)
   · dsimp only
     split
     · intro _; exact ⟨_, rfl⟩
-    · intro h; exact absurd h (fail'_err _ _)
+    · intro h; exact absurd h (fail'_errX _ _)
 
 end World
 
@@ -171,7 +171,7 @@ theorem Node.reportChange_res : (n : Node) → (w : World U) → (n.reportChange
           have := argMax_lt _ _ _ heq
           rw [hlen] at this
           rw [Subs.reportChangeAll_len]; exact this
-        · intro h; exact absurd h (World.fail'_err _ _)
+        · intro h; exact absurd h (World.fail'_errX _ _)
       · simp only [Node.reportChange]
         intro h
         simp only [Node.Res]
@@ -192,7 +192,7 @@ theorem Node.reportChange_res : (n : Node) → (w : World U) → (n.reportChange
       exact (ih2 _ h2).1
 theorem Subs.reportChangeAt_res : (s : Subs) → (i : Nat) → (w : World U) →
     (s.reportChangeAt i w).2.1.err = none → (s.reportChangeAt i w).1.ResAt i
-  | .nil, _, w => by simp only [Subs.reportChangeAt]; intro h; exact absurd h (World.fail'_err _ _)
+  | .nil, _, w => by simp only [Subs.reportChangeAt]; intro h; exact absurd h (World.fail'_errX _ _)
   | .cons b n r, 0, w => by simp only [Subs.reportChangeAt, Subs.ResAt]; exact Node.reportChange_res n w
   | .cons b n r, i+1, w => by simp only [Subs.reportChangeAt, Subs.ResAt]; exact Subs.reportChangeAt_res r i w
 theorem Subs.reportChangeAll_res : (s : Subs) → (w : World U) →
@@ -266,7 +266,7 @@ theorem Node.reportUtilize_res : (n : Node) → (w : World U) → (n.reportUtili
         have := argMax_lt _ _ _ heq
         rw [hlen] at this
         rw [Subs.reportUtilizeAll_len]; exact this
-      · intro h; exact absurd h (World.fail'_err _ _)
+      · intro h; exact absurd h (World.fail'_errX _ _)
   | .ortho id rid inj hd s, w => by
       have ih2 := Subs.reportUtilizeAll_res s
       simp only [Node.reportUtilize, Node.Res]
@@ -381,8 +381,8 @@ theorem Node.request_res : (n : Node) → (rq : Req) → (w : World U) →
         · next i hsel =>
           split
           · simp only [Node.Res]; exact ih1 _ _ _
-          · intro h; exact absurd h (World.fail'_err _ _)
-        · intro h; exact absurd h (World.fail'_err _ _)
+          · intro h; exact absurd h (World.fail'_errX _ _)
+        · intro h; exact absurd h (World.fail'_errX _ _)
       · -- utilize
         by_cases c : rq.kind = .change
         · simp only [c, if_true]
@@ -396,7 +396,7 @@ theorem Node.request_res : (n : Node) → (rq : Req) → (w : World U) →
             have := argMax_lt _ _ _ heq
             rw [hlen] at this
             rw [Subs.reportChangeAll_len]; exact this
-          · intro h; exact absurd h (World.fail'_err _ _)
+          · intro h; exact absurd h (World.fail'_errX _ _)
         · simp only [c, if_false]
           split
           · next i u heq =>
@@ -408,7 +408,7 @@ theorem Node.request_res : (n : Node) → (rq : Req) → (w : World U) →
             have := argMax_lt _ _ _ heq
             rw [hlen] at this
             rw [Subs.reportUtilizeAll_len]; exact this
-          · intro h; exact absurd h (World.fail'_err _ _)
+          · intro h; exact absurd h (World.fail'_errX _ _)
       · -- randomize
         by_cases c : rq.kind = .change
         · simp only [c, if_true]
@@ -435,11 +435,11 @@ theorem Node.request_res : (n : Node) → (rq : Req) → (w : World U) →
             err_back h
           obtain ⟨htop, hlen⟩ := Subs.reportRandomizeTop_res s _ _ _ h2
           exact htop j hs.2 (by rw [← hlen]; exact hs.1)
-      · intro h; exact absurd h (World.fail'_err _ _)
-      · intro h; exact absurd h (World.fail'_err _ _)
+      · intro h; exact absurd h (World.fail'_errX _ _)
+      · intro h; exact absurd h (World.fail'_errX _ _)
 theorem Subs.requestAt_res : (s : Subs) → (i : Nat) → (rq : Req) → (w : World U) →
     (s.requestAt i rq w).2.err = none → (s.requestAt i rq w).1.ResAt i
-  | .nil, _, _, w => by simp only [Subs.requestAt]; intro h; exact absurd h (World.fail'_err _ _)
+  | .nil, _, _, w => by simp only [Subs.requestAt]; intro h; exact absurd h (World.fail'_errX _ _)
   | .cons b n r, 0, rq, w => by simp only [Subs.requestAt, Subs.ResAt]; exact Node.request_res n rq w
   | .cons b n r, i+1, rq, w => by simp only [Subs.requestAt, Subs.ResAt]; exact Subs.requestAt_res r i rq w
 theorem Subs.requestAll_res : (s : Subs) → (rq : Req) → (w : World U) →
@@ -468,7 +468,7 @@ theorem Node.fwdRequest_res : (n : Node) → (rq : Req) → (w : World U) →
       · exact Node.request_res _ rq _
 theorem Subs.fwdRequestAt_res : (s : Subs) → (i : Nat) → (rq : Req) → (w : World U) →
     (s.fwdRequestAt i rq w).2.err = none → (s.fwdRequestAt i rq w).1.ResAt i
-  | .nil, _, _, w => by simp only [Subs.fwdRequestAt]; intro h; exact absurd h (World.fail'_err _ _)
+  | .nil, _, _, w => by simp only [Subs.fwdRequestAt]; intro h; exact absurd h (World.fail'_errX _ _)
   | .cons b n r, 0, rq, w => by simp only [Subs.fwdRequestAt, Subs.ResAt]; exact Node.fwdRequest_res n rq w
   | .cons b n r, i+1, rq, w => by simp only [Subs.fwdRequestAt, Subs.ResAt]; exact Subs.fwdRequestAt_res r i rq w
 theorem Subs.fwdRequestAll_res : (s : Subs) → (rq : Req) → (w : World U) →
